@@ -1,6 +1,8 @@
 (* Corr/C12Corr.v — case checkers for the C12 correspondence (model vs implementation).
    Depends on the model only. *)
-From CKT Require Import Common.Base Common.Circ Model.ResetPasses.
+From Coq Require Import QArith.
+From CKT Require Import Common.Base Common.Circ Common.QSim Model.ResetPasses Model.ResetSim.
+Close Scope Q_scope.
 
 (* compact instruction literals used by harness/c12.py *)
 Definition R (q : nat) : instr := mkI Reset [q] [].
@@ -69,3 +71,30 @@ Definition chk_all (k : nat * nat * circ * list circ) : bool :=
       chk_dag_rfr (nq, nc, c, e5) && chk_dag_rfr_fix (nq, nc, c, e6) && chk_dag_consolidate (nq, nc, c, e7)
   | _ => false
   end.
+
+(* ---- the concrete semantics of Model/ResetSim.v against the harness's independent numpy simulator ----
+   (nq, nc, gate table [(gate id, QSim gate code)], circuit, expected law [(register, probability)], outcomes of
+   probability 0 omitted).  All gates of the case are in the QSim gate set, all probabilities dyadic. *)
+Definition qgate_of_code (k : nat) : option qgate :=
+  match k with
+  | 0 => Some Gx | 1 => Some Gy | 2 => Some Gz | 3 => Some Gh | 4 => Some Gs | 5 => Some Gsdg
+  | 6 => Some Gsx | 7 => Some Gsxdg | 8 => Some Gcx | 9 => Some Gcz | 10 => Some Gswap | 11 => Some Gccx
+  | _ => None
+  end.
+Definition gi_of (tab : list (nat * nat)) (g : nat) : option qgate :=
+  match find (fun p => Nat.eqb (fst p) g) tab with Some p => qgate_of_code (snd p) | None => None end.
+
+Definition reg_beq := list_beq Bool.eqb.
+Definition law_at (l : list (list bool * vec)) (k : list bool) : q2 :=
+  q2sum (map (fun b => if reg_beq (fst b) k then norm2 (snd b) else q2zero) l).
+
+Definition chk_sim (c : nat * nat * list (nat * nat) * circ * list (list bool * Q)) : bool :=
+  let '(nq, nc, tab, p, e) := c in
+  let l := qbrun (gi_of tab) nq nc p in
+  forallb (fun kp => Qeq_bool (fst (law_at l (fst kp))) (snd kp) && Qeq_bool (snd (law_at l (fst kp))) 0%Q) e &&
+  forallb (fun b => existsb (fun kp => reg_beq (fst b) (fst kp)) e) l &&
+  (* and the theorems' two passes leave the concrete branch list unchanged on this very input *)
+  list_beq (pair_beq reg_beq (list_beq (fun a b : amp => amp_is_azero (aadd a (aneg b)))))
+           (qbrun (gi_of tab) nq nc (consolidate_resets nq p)) l &&
+  list_beq (pair_beq reg_beq (list_beq (fun a b : amp => amp_is_azero (aadd a (aneg b)))))
+           (qbrun (gi_of tab) nq nc (remove_resets_in_zero_state nq p)) l.
